@@ -198,6 +198,9 @@ func (lam *Lambda) BoundCall(s *Scope, depth int) (result Object) {
 			}
 			break
 		}
+		if _, ok := result.(*GoTo); ok {
+			break
+		}
 	}
 	return
 }
